@@ -860,7 +860,10 @@ class NF:
         return self.body(m, env2)
 
     def body(self, m: ast.FunctionDef, env: Env):
-        for s in real_body(m):
+        stmts = real_body(m)
+        if any(isinstance(s, ast.For) for s in stmts):
+            stmts = normalise_loops(stmts)
+        for s in stmts:
             if isinstance(s, (ast.Import, ast.ImportFrom)):
                 self._local_import(s, env)
                 continue
@@ -918,7 +921,7 @@ class NF:
         a = dict(args or {})
         for p_ in [x.arg for x in m.args.args[1:] + m.args.kwonlyargs]:
             a.setdefault(p_, sym(p_))
-        g = CFG(real_body(m))
+        g = CFG(normalise_loops(real_body(m)))
         out = []
         for path in g.paths(bound=bound):
             vars = dict(a)
@@ -1060,3 +1063,91 @@ def fill_defaults(nf, t, env=None):
                         args[f.name] = d
         return mk_ctor(t[1], args)
     return tuple(fill_defaults(nf, x, env) if isinstance(x, tuple) else x for x in t)
+
+
+# ---------------------------------------------------------------------------------------------
+class _Subst(ast.NodeTransformer):
+    def __init__(self, mapping):
+        self.mapping = mapping
+
+    def visit_Name(self, node):
+        if isinstance(node.ctx, ast.Load) and node.id in self.mapping:
+            return self.mapping[node.id]
+        return node
+
+
+def loops_to_comps(body: list[ast.stmt]) -> list[ast.stmt]:
+    """Idiom normaliser: rewrite accumulate-loops into comprehensions.
+
+        acc = []                      |
+        for v in S:                   |      acc = [E' for v in S if C']
+            x = E1                    |  =>
+            if C: acc.append(E)       |
+    (zero or more single-name assignments before the append; the `if` is optional)."""
+    import copy
+    out: list[ast.stmt] = []
+    i = 0
+    body = list(body)
+    while i < len(body):
+        s = body[i]
+        acc = None
+        if isinstance(s, ast.Assign) and len(s.targets) == 1 and isinstance(s.targets[0], ast.Name) and isinstance(s.value, ast.List) and not s.value.elts:
+            acc = s.targets[0].id
+        if isinstance(s, ast.AnnAssign) and isinstance(s.target, ast.Name) and isinstance(s.value, ast.List) and not s.value.elts:
+            acc = s.target.id
+        if acc and i + 1 < len(body) and isinstance(body[i + 1], ast.For) and not body[i + 1].orelse:
+            loop = body[i + 1]
+            mapping: dict[str, ast.expr] = {}
+            stmts = list(loop.body)
+            ok = True
+            cond = None
+            app = None
+            for j, st in enumerate(stmts):
+                if isinstance(st, ast.Assign) and len(st.targets) == 1 and isinstance(st.targets[0], ast.Name) and j < len(stmts) - 1:
+                    mapping[st.targets[0].id] = _Subst(mapping).visit(copy.deepcopy(st.value))
+                elif j == len(stmts) - 1:
+                    inner = st
+                    if isinstance(st, ast.If) and not st.orelse and len(st.body) == 1:
+                        cond = _Subst(mapping).visit(copy.deepcopy(st.test))
+                        inner = st.body[0]
+                    if isinstance(inner, ast.Expr) and isinstance(inner.value, ast.Call) and isinstance(inner.value.func, ast.Attribute) \
+                            and inner.value.func.attr == "append" and isinstance(inner.value.func.value, ast.Name) \
+                            and inner.value.func.value.id == acc and len(inner.value.args) == 1:
+                        app = _Subst(mapping).visit(copy.deepcopy(inner.value.args[0]))
+                    else:
+                        ok = False
+                else:
+                    ok = False
+            if ok and app is not None:
+                comp = ast.ListComp(elt=app, generators=[ast.comprehension(target=loop.target, iter=loop.iter, ifs=[cond] if cond is not None else [], is_async=0)])
+                new = ast.Assign(targets=[ast.Name(id=acc, ctx=ast.Store())], value=comp)
+                ast.copy_location(new, loop)
+                ast.fix_missing_locations(new)
+                out.append(new)
+                i += 2
+                continue
+        out.append(s)
+        i += 1
+    return out
+
+
+def normalise_loops(stmts: list[ast.stmt]) -> list[ast.stmt]:
+    """apply loops_to_comps to a statement list and, recursively, to every nested block (on a copy)"""
+    import copy
+    stmts = [copy.deepcopy(s) for s in stmts]
+
+    def rec(block):
+        block = loops_to_comps(block)
+        for s in block:
+            for fld in ("body", "orelse", "finalbody"):
+                b = getattr(s, fld, None)
+                if isinstance(b, list) and b and isinstance(b[0], ast.stmt):
+                    setattr(s, fld, rec(b))
+            if isinstance(s, ast.Match):
+                for c in s.cases:
+                    c.body = rec(c.body)
+            if isinstance(s, ast.Try):
+                for h in s.handlers:
+                    h.body = rec(h.body)
+        return block
+    return rec(stmts)
